@@ -731,6 +731,17 @@ def gen_vocint(tier):
                 yield {"g": "voc", "rows": [[t, "q", [col, val]]], "ctx": "top", "ch": "normal"}
 
 
+CH_INTERNAL = ["media", "children", "choices", "bind", "control", "itemset", "name::x", "list_name::x", "label::en::x", "media::image::en::x", "instance", "type"]
+
+
+def gen_vocch(tier):
+    """choices-sheet column headers equal to internal keys / over-long grouped headers"""
+    for col in CH_INTERNAL:
+        for val in ("x", "", "${t0}"):
+            for t in ("select_one c", "select_multiple c or_other", "text"):
+                yield {"g": "voc", "rows": [[t, "q", None]], "ctx": "top", "ch": "normal", "chcol": [col, val]}
+
+
 def gen_voc2(tier):
     types = VALID_TYPES + MALFORMED_TYPES
     for t1 in types:
@@ -772,6 +783,9 @@ def gen_voc3(tier):
 def _run_voc(case):
     rows = [voc_row(t, nm, ex) for t, nm, ex in case["rows"]]
     wb = voc_wb(rows, case["ctx"], case["ch"])
+    if case.get("chcol"):
+        for r in wb.get("choices", ()):
+            r[case["chcol"][0]] = case["chcol"][1]
     return rows, wb, run_convert(wb)
 
 
@@ -825,8 +839,10 @@ def check_voc(case):
     rows, wb, out = _run_voc(case)
     viol = []
     if out.kind == "crash":
-        feat = isolate(case, out)
-        if feat.startswith("internal-key-header=") or any(ex and ex[0] in INTERNAL_COLS for _, _, ex in case["rows"]):
+        feat = isolate(case, out) if not case.get("chcol") else "choices-header"
+        if case.get("chcol"):
+            sig = f"internal-exception:internal-key-header=choices.{case['chcol'][0]}"
+        elif feat.startswith("internal-key-header=") or any(ex and ex[0] in INTERNAL_COLS for _, _, ex in case["rows"]):
             col = next(ex[0] for _, _, ex in case["rows"] if ex and ex[0] in INTERNAL_COLS)
             sig = f"internal-exception:internal-key-header={col}"
         else:
@@ -842,7 +858,7 @@ def check_voc(case):
 # --------------------------------------------------------------------------- engine -----
 from xmc.spaces import GenSpace  # noqa: E402
 
-SPACE = GenSpace({"seq": gen_seq, "cat": gen_cat, "voc1": gen_voc1, "vocint": gen_vocint, "voc2": gen_voc2, "voc3": gen_voc3}, chunk=500)
+SPACE = GenSpace({"seq": gen_seq, "cat": gen_cat, "voc1": gen_voc1, "vocint": gen_vocint, "vocch": gen_vocch, "voc2": gen_voc2, "voc3": gen_voc3}, chunk=500)
 blocks = SPACE.blocks
 expand = SPACE.expand
 
